@@ -25,7 +25,7 @@ ANCHORS = ['gcp:Model.reset', 'lp:RoConstr.forall', 'ro:Model.minmax',
            'dro:Ambiguity.mix_support', 'lp:ExpPiecewiseConvex.__init__', 'lp:Scen.suppset',
            'dro:Model.rule_var']
 FLOORS = {'judged': {'quick': 250, 'thorough': 5000}, 'nontrivial': 60,
-          'counters': {'distractors_defined': 150, 'mid_solves': 100, 'supports_compared': 200}}
+          'counters': {'distractors_defined': 150, 'mid_solves': 100, 'supports_compared': 120}}
 RULE = ('ro histories (C01 generator): distractor sets of every primitive kind at random points, '
         'do_math / do_math(primal=False) / solve with a random interface after the objective or '
         'between rows, rows added after a solve, a decision variable and a decision rule declared '
